@@ -26,13 +26,14 @@ def execute(ctx: Ctx, ops: list[dict], tag: str, extra_path: Path | None = None)
     return events
 
 
-def validate(ctx: Ctx, module: str, events: list[dict], env: dict, tag: str, per_shard: int = 6000) -> list[tuple]:
+def validate(ctx: Ctx, module: str, events: list[dict], env: dict, tag: str, per_shard: int = 6000,
+             heap: str = "3g") -> list[tuple]:
     """Validate events against trace spec `module`; returns [(event, clause, extra)]."""
     if not events:
         return []
     n = max(1, min(NCPU, (len(events) + per_shard - 1) // per_shard))
     shards = chunks(events, n)
-    results = tlc.validate_trace_shards(module, shards, ctx.wd, env, tag)
+    results = tlc.validate_trace_shards(module, shards, ctx.wd, env, tag, heap=heap)
     ctx.add_trace_results(results, len(events), module)
     by_id = {e["i"]: e for e in events}
     mism = []
